@@ -155,3 +155,22 @@ Definition c08_poly_dep : list string := ["periodic_elements"; "projection"].
 Definition c08_line_dep : list string := ["periodic_elements"; "projection"].
 Definition c08_tree_dep : list string := ["coordinates"; "coordinate_system"; "distance_metric"].
 Close Scope string_scope.
+
+(* ---------------- (3) several grids in one process ---------------- *)
+(* a world: the states of all grids plus the module-level constants (an opaque value: no read-only
+   operation has a write to it in the code as it is — checked against the import-time snapshot on
+   every run) *)
+Record c08_world := { w_grids : list c08_state; w_globals : Z }.
+
+Fixpoint c08_update {A} (i : nat) (f : A -> A) (l : list A) : list A :=
+  match l, i with
+  | [], _ => []
+  | x :: l', O => f x :: l'
+  | x :: l', S i' => x :: c08_update i' f l'
+  end.
+
+Definition c08_world_step (w : c08_world) (io : nat * c08_op) : c08_world :=
+  {| w_grids := c08_update (fst io) (fun s => c08_step s (snd io)) (w_grids w); w_globals := w_globals w |}.
+
+Definition c08_world_run (w : c08_world) (ops : list (nat * c08_op)) : c08_world :=
+  fold_left c08_world_step ops w.
